@@ -301,6 +301,21 @@ def m_ferror(I, st, fr, n, this, args, an):
     return [(st, C(0)), (s2, C(1))]
 
 
+def m_strncpy(I, st, fr, n, this, args, an):
+    # copies up to the first NUL of the source and zero-fills: which bytes arrive depends on the data
+    dst = args[0]
+    cnt = args[2] if len(args) > 2 else TOP
+    I.emit('strwrite', st, node=n, dst=dst, args=args, argnodes=an, bounded=cnt if len(args) > 2 else None)
+    if dst[0] == 'p':
+        write_region(I, st, dst, cnt, 'strncpy', n)
+    return [(st, dst)]
+
+
+def m_cmp(I, st, fr, n, this, args, an):
+    I.emit('memcmp', st, node=n, args=args)
+    return [(st, R(-(1 << 31), (1 << 31) - 1))]
+
+
 def m_exit(I, st, fr, n, this, args, an):
     I.emit('exit', st, node=n, code=args[0] if args else TOP)
     return []
@@ -471,7 +486,8 @@ STD_MODELS = {
     'ungetc': m_ungetc, 'fopen': m_fopen, 'fclose': m_fclose, 'fflush': m_fflush,
     'printf': m_console, 'puts': m_console, 'putchar': m_console, 'fprintf': m_fprintf,
     'sprintf': m_sprintf, 'snprintf': m_snprintf, 'scanf': m_scanf,
-    'ferror': m_ferror, 'strnlen': m_strlen,
+    'ferror': m_ferror, 'strnlen': m_strlen, 'strncpy': m_strncpy, 'strcpy': m_strncpy, 'strcat': m_strncpy,
+    'memcmp': m_cmp, 'strcmp': m_cmp, 'strncmp': m_cmp, 'std::memcmp': m_cmp,
     'memcpy': m_memcpy, 'memmove': m_memcpy, 'memset': m_memset, 'strlen': m_strlen,
     'std::memcpy': m_memcpy, 'std::memset': m_memset, 'std::strlen': m_strlen,
     'exit': m_exit, 'std::exit': m_exit, 'abort': m_exit,
